@@ -28,14 +28,14 @@ type PStep struct {
 }
 
 type progCase struct {
-	Seed   uint64             `json:"seed"`
-	Policy string             `json:"policy,omitempty"`
-	Sticky float64            `json:"sticky,omitempty"`
-	Kind   string             `json:"kind,omitempty"`
-	P      map[string]int     `json:"p,omitempty"`
-	Faults []sim.FaultSpec    `json:"faults,omitempty"`
-	Rates  []sim.Rates        `json:"rates,omitempty"`
-	Steps  []PStep            `json:"steps"`
+	Seed   uint64          `json:"seed"`
+	Policy string          `json:"policy,omitempty"`
+	Sticky float64         `json:"sticky,omitempty"`
+	Kind   string          `json:"kind,omitempty"`
+	P      map[string]int  `json:"p,omitempty"`
+	Faults []sim.FaultSpec `json:"faults,omitempty"`
+	Rates  []sim.Rates     `json:"rates,omitempty"`
+	Steps  []PStep         `json:"steps"`
 }
 
 type progStats struct {
@@ -113,10 +113,11 @@ func (pc *progCheck) minimise(v Violation) Violation {
 		return v
 	}
 	fails := func(cand *progCase) bool {
-		vs, _ := pc.run(cand)
+		vs, st := pc.run(cand)
 		for _, x := range vs {
 			if x.Class == v.Class {
 				v.Msg = x.Msg
+				v.Hash = st.Hash
 				return true
 			}
 		}
